@@ -1,12 +1,17 @@
-"""Developer helper: group a VERIF_DUMP file by descriptor and show the shortest cases."""
+"""Developer helper: group a VERIF_DUMP file by atom and show the shortest cases."""
 import json, sys, collections
 g = collections.defaultdict(list)
 for l in open(sys.argv[1]):
     v = json.loads(l)
-    g[(v.get("subcheck"), v.get("descriptor"))].append(v)
+    for a in (v.get("atoms") or [v.get("descriptor")]):
+        g[(v.get("subcheck"), a)].append(v)
 k = int(sys.argv[2]) if len(sys.argv) > 2 else 8
-for key, vs in sorted(g.items(), key=lambda kv: str(kv[0])):
-    print("==", key, len(vs))
-    vs.sort(key=lambda v: len(json.dumps(v.get("case"))))
-    for v in vs[:k]:
-        print("   ", json.dumps(v.get("case"), ensure_ascii=True)[:200], "|", str(v.get("observed"))[:160])
+w = int(sys.argv[3]) if len(sys.argv) > 3 else 200
+try:
+    for key, vs in sorted(g.items(), key=lambda kv: str(kv[0])):
+        print("==", key, len(vs))
+        vs.sort(key=lambda v: len(json.dumps(v.get("case"))))
+        for v in vs[:k]:
+            print("   ", (v.get("sites") or ""), str(v.get("observed"))[:w])
+except BrokenPipeError:
+    pass
